@@ -62,7 +62,7 @@ var c12Check = register("C12", "c12.plan", func(c *concCase) error {
 	return nil
 })
 
-const c12Rule = "C12: rapid-generated plans, each executed in a freshly started -race build of the harness: 1..3 phases; in each, 2..16 goroutines are released together by a barrier and make 1..12 calls over all six entry points; the languages are chosen so that several goroutines make the FIRST use of the same language (cold lazy-table construction), later phases are warm; GOMAXPROCS in {1,2,4,16}, per-call yields/spins. Oracle: empty race-detector report, no panic, every observation equals the reference model and the same call's solo replay in that process. Non-trivial: >= 2 goroutines whose first validation in phase 1 targets the same language; distinct by plan"
+const c12Rule = "C12: rapid-generated plans, each executed in a freshly started -race build of the harness: 1..3 phases; in each, 2..16 goroutines are released together by a barrier and make 1..12 calls over all six entry points; the languages are chosen so that several goroutines make the FIRST use of the same language (cold lazy-table construction), later phases are warm; GOMAXPROCS in {1,2,4,16}, per-call yields/spins, calls repeated 20..3000 times in a row (every repetition must return the same result); fixed cold-start plans for each language and hammer plans in which 8 goroutines repeat cheap calls with different arguments thousands of times. Oracle: empty race-detector report, no panic, every observation equals the reference model and the same call's solo replay in that process. Non-trivial: >= 2 goroutines whose first validation in phase 1 targets the same language; distinct by plan"
 
 func c12Record(c *concCase) {
 	cov.Eval(1)
@@ -118,6 +118,9 @@ func drawConcPlan(rt *rapid.T) plan {
 					ti := rapid.IntRange(0, len(pool.texts)-1).Draw(rt, "text")
 					o = op{Kind: rapid.SampledFrom([]string{"check", "valid"}).Draw(rt, "vkind"), Text: text(pool.texts[ti]), Lang: pool.langs[rapid.IntRange(0, len(pool.langs)-1).Draw(rt, "vlang")]}
 				}
+				if o.Kind != "seed" {
+					o.Repeat = rapid.SampledFrom([]int{0, 0, 0, 0, 20, 300}).Draw(rt, "repeat")
+				}
 				o.Yield = rapid.SampledFrom([]int{0, 0, 0, 1, 3}).Draw(rt, "yield")
 				o.Spin = rapid.SampledFrom([]int{0, 0, 100, 10000}).Draw(rt, "spin")
 				ops = append(ops, o)
@@ -151,6 +154,30 @@ func TestC12_Plans(t *testing.T) {
 			c := &concCase{Plan: plan{GOMAXPROCS: []int{16, 4, 2, 1}[int(l)%4], Phases: []phase{{Goroutines: gs}}}}
 			c12Record(c)
 			cov.Class("fixed-cold-start")
+			judge(t, "c12.plan", c12Check, c)
+		}
+	}
+	if cfg.Shard == 1%cfg.Shards {
+		// hammer plans: goroutines repeat cheap calls with DIFFERENT arguments thousands of times, so
+		// that a shared scratch value or a racy cache is overwritten mid-call even without a race report
+		for round := 0; round < pick(2, 6); round++ {
+			var gs [][]op
+			for g := 0; g < 8; g++ {
+				e := tableEntropiesSmall(round*31 + g)
+				l := ref.Lang((g + round) % int(ref.NumLangs))
+				lz := append([]byte{0, 0}, tableEntropiesSmall(g + 7)[2:]...) // entropy with leading zero bytes
+				gs = append(gs, []op{
+					{Kind: "string", Lang: int64(-1 - g - 10*round), Repeat: 3000},
+					{Kind: "encode", Lang: int64(implLang[l]), Entropy: e, Repeat: 1500},
+					{Kind: "check", Lang: int64(implLang[l]), Text: text(ref.Encode(lz, l)), Repeat: 600},
+					{Kind: "string", Lang: int64(10 + g), Repeat: 3000},
+					{Kind: "valid", Lang: int64(implLang[l]), Text: text(ref.Encode(e, l)), Repeat: 600},
+					{Kind: "new", Lang: int64(implLang[l]), N: int64(ref.Counts[g%5]), Repeat: 300},
+				})
+			}
+			c := &concCase{Plan: plan{GOMAXPROCS: []int{16, 4, 2, 8, 16, 3}[round], Phases: []phase{{Goroutines: gs}}}}
+			c12Record(c)
+			cov.Class("hammer")
 			judge(t, "c12.plan", c12Check, c)
 		}
 	}
